@@ -555,6 +555,11 @@ class Engine:
                 continue
             paths.append(pr['summary'])
             results.extend(pr['vcs'])
+            if sum(1 for r in results if r.status == 'sat') >= 6:
+                # enough failed obligations to report; exploring the remaining paths only repeats them
+                error = None
+                results.append(VCResult(f'{c.name}#exploration-stopped-after-6-failures', 'unsat', 'pyvc', 0, npaths, 'note'))
+                break
             for d in pr['dropped']:
                 dropped.add(d)
         status = 'proved'
